@@ -271,6 +271,7 @@ class Facts:
         self.types = {}
         self.bodies = []
         self.by_path = {}
+        self.by_cpath = {}
         for c in ("feos_core", "feos_dft", "feos"):
             p = os.path.join(d, c + ".json")
             if not os.path.exists(p):
@@ -283,11 +284,22 @@ class Facts:
                 b = Body(bd, c, self)
                 self.bodies.append(b)
                 self.by_path.setdefault(bd["path"], []).append(b)
+                if "cpath" in bd:
+                    self.by_cpath[bd["cpath"]] = b
         self.meta = json.load(open(os.path.join(d, "meta.json")))
 
     def body(self, path):
         bs = self.by_path.get(path, [])
         return bs[0] if bs else None
+
+    def callee_body(self, t):
+        """body of the (resolved) callee of a call terminator, across crates (canonical def paths)"""
+        f = t["fn"]
+        for k in ("resolved_cpath", "cpath"):
+            b = self.by_cpath.get(f.get(k))
+            if b is not None:
+                return b
+        return None
 
     def find(self, suffix):
         return [b for b in self.bodies if b.path.endswith(suffix)]
